@@ -1007,12 +1007,27 @@ class KconfigGrammar:
             return_file = ""
             split_lines_idxs: List[int] = []
 
+            # Indentation of the help text being read: None outside of help text, -1 right after the "help" line
+            # (the first text line decides). A "#" in help text is text, not a comment.
+            help_indent: Optional[int] = None
+            help_keyword_indent = 0
+
             for line_idx, line in enumerate(lines):
                 line = line.expandtabs()
                 # Remove unnecessary whitespaces from otherwise empty line
                 if line.isspace():
                     return_file += "\n"
                     continue
+
+                indent = len(line) - len(line.lstrip())
+                if help_indent == -1:
+                    help_indent = indent if indent > help_keyword_indent else None
+                if help_indent is not None and indent >= help_indent:
+                    return_file += line.rstrip() + "\n"
+                    continue
+                help_indent = None
+                if line.strip() == "help":
+                    help_indent, help_keyword_indent = -1, indent
 
                 # Remove inline comments
                 line = remove_inline_comments(line)
